@@ -110,6 +110,7 @@ impl StarkProof {
         let layer_log_sizes = self.layer_log_sizes(&self.public_input.dynamic_params)?;
 
         let fri_step_list = fri.fri_step_list;
+        anyhow::ensure!(!fri_step_list.is_empty(), "Invalid fri step list");
         let log_last_layer_degree_bound = log2_if_power_of_2(fri.last_layer_degree_bound)
             .ok_or(anyhow::anyhow!("Invalid last layer degree bound"))?;
         let fri = FriConfig {
@@ -118,14 +119,18 @@ impl StarkProof {
             inner_layers: fri_step_list[1..]
                 .iter()
                 .zip(layer_log_sizes[2..].iter())
-                .map(|(layer_steps, layer_log_rows)| TableCommitmentConfig {
-                    n_columns: 2_u32.pow(*layer_steps),
-                    vector: VectorCommitmentConfig {
-                        height: *layer_log_rows,
-                        n_verifier_friendly_commitment_layers,
-                    },
+                .map(|(layer_steps, layer_log_rows)| {
+                    Ok(TableCommitmentConfig {
+                        n_columns: 2_u32
+                            .checked_pow(*layer_steps)
+                            .ok_or(anyhow::anyhow!("Invalid fri step list"))?,
+                        vector: VectorCommitmentConfig {
+                            height: *layer_log_rows,
+                            n_verifier_friendly_commitment_layers,
+                        },
+                    })
                 })
-                .collect(),
+                .collect::<anyhow::Result<Vec<_>>>()?,
             fri_step_sizes: fri_step_list,
             log_last_layer_degree_bound,
         };
@@ -162,7 +167,13 @@ impl StarkProof {
     ) -> anyhow::Result<Vec<u32>> {
         let mut layer_log_sizes = vec![self.log_eval_damain_size(dynamic_params)?];
         for layer_step in &self.proof_parameters.stark.fri.fri_step_list {
-            layer_log_sizes.push(layer_log_sizes.last().unwrap() - layer_step);
+            layer_log_sizes.push(
+                layer_log_sizes
+                    .last()
+                    .unwrap()
+                    .checked_sub(*layer_step)
+                    .ok_or(anyhow::anyhow!("Invalid fri step list"))?,
+            );
         }
         Ok(layer_log_sizes)
     }
